@@ -308,12 +308,12 @@ def abort_oracle(pid, case, impl, variants):
 
 
 # scenario families (harness/scenarios.py) per property: structured interaction matrices next to the random streams
-SCEN = {'C01': ['attrs', 'blockdefs', 'macros', 'redefs'], 'C02': ['macros', 'lists'], 'C03': ['blockdefs', 'attrs', 'inline'],
-        'C04': ['options', 'blockdefs', 'redefs'], 'C05': ['blockdefs', 'options', 'repeat', 'redefs'], 'C06': ['inline', 'lists'],
-        'C07': ['inline', 'redefs'], 'C08': ['dispatch', 'attrs'], 'C09': ['inline', 'dispatch'], 'C10': ['lists'],
-        'C11': ['macros'], 'C12': ['attrs', 'lists'], 'C13': ['lists', 'ids'], 'C14': ['repeat', 'options', 'redefs'],
-        'C15': ['ids'], 'C16': ['dispatch', 'lists'], 'C17': ['inline', 'dispatch', 'redefs'], 'C19': ['options', 'blockdefs', 'macros'],
-        'C20': ['options']}
+SCEN = {'C01': ['attrs', 'blockdefs', 'macros', 'redefs', 'unicode', 'nesting'], 'C02': ['macros', 'lists'], 'C03': ['blockdefs', 'attrs', 'inline', 'unicode'],
+        'C04': ['options', 'blockdefs', 'redefs'], 'C05': ['blockdefs', 'options', 'repeat', 'redefs'], 'C06': ['inline', 'lists', 'nesting'],
+        'C07': ['inline', 'redefs', 'unicode'], 'C08': ['dispatch', 'attrs', 'nesting', 'unicode'], 'C09': ['inline', 'dispatch', 'nesting'],
+        'C10': ['lists', 'nesting'], 'C11': ['macros', 'unicode'], 'C12': ['attrs', 'lists', 'nesting'], 'C13': ['lists', 'ids', 'nesting'],
+        'C14': ['repeat', 'options', 'redefs'], 'C15': ['ids', 'unicode'], 'C16': ['dispatch', 'lists', 'nesting'],
+        'C17': ['inline', 'dispatch', 'redefs', 'unicode'], 'C19': ['options', 'blockdefs', 'macros', 'nesting'], 'C20': ['options']}
 
 
 def scenario_streams(ctx):
